@@ -191,6 +191,21 @@ fn start(cfg: &Cfg, root: &Path, link: Option<&PathBuf>, errfile: &Path) -> Resu
         r.fh = Some(fh);
         Ok(r)
     } else {
+        if cfg.asadd {
+            // the file writer as ADDITIONAL writer "A" of a logger whose default channel is stderr; the records are
+            // addressed to {A}
+            let w = flw_builder(cfg, root, link).try_build().map_err(|e| format!("{e:?}"))?;
+            let (logger, handle) = Logger::with(LogSpecification::trace())
+                .log_to_stderr()
+                .add_writer("A", Box::new(w))
+                .error_channel(ErrorChannel::File(errfile.to_path_buf()))
+                .build()
+                .map_err(|e| format!("{e:?}"))?;
+            let mut r = Run::none();
+            r.logger = Some(logger);
+            r.handle = Some(handle);
+            return Ok(r);
+        }
         let l0 = Logger::with(LogSpecification::trace());
         // "fw": the default channel is the file AND a writer (log_to_file_and_writer), a second file writer in a
         // sibling directory; everything else as with log_to_file
@@ -474,7 +489,7 @@ pub fn run_scenario(sc: &Value, ex: &mut Exec) -> usize {
                     let r = catch_unwind(AssertUnwindSafe(|| {
                         if let Some(l) = &run.logger {
                             // optional "weird record" parameters (C10): target string, absent optional fields
-                            let target = st.get("target").and_then(|v| v.as_str()).unwrap_or("m");
+                            let target = st.get("target").and_then(|v| v.as_str()).unwrap_or(if cfg.asadd { "{A}" } else { "m" });
                             let nomod = st.get("nomod").and_then(|v| v.as_bool()).unwrap_or(false);
                             let file = st.get("file").and_then(|v| v.as_str());
                             let line = st.get("line").and_then(|v| v.as_u64()).map(|x| x as u32);
